@@ -114,7 +114,7 @@ theorem c04_value_passthrough (F : Facts) (s : Settings) : glomTop F s .val = .v
 theorem c04_frame_transparent (E : EvalEnv) (o : Outc) : frameG E o = o := frameG_id E o
 
 /-- **Where the fault originates.**  A fault at any depth, under any number of nested
-    tuple / dict / list / `Spec` frames whose earlier siblings return, reaches `glom()`'s
+    tuple / dict / list / `Spec` / `First(key)` frames whose earlier siblings return, reaches `glom()`'s
     handler as the same exception object. -/
 theorem c04_plain_frames (E : EvalEnv) (c : Ctx) (x : Sp) (o : Origin)
     (hpre : c.PreOk E) (hx : eval E x = .exc o) : eval E (c.plug x) = .exc o :=
@@ -258,9 +258,9 @@ example : selected ⟨none, none, some true⟩ keyErr = false ∧ isInst kbd "Ex
 example : (match glomTop genFacts ⟨some 7, some ["KI"], some true⟩ (.exc kbd) with
     | .dflt (.given 7) => true | _ => false) = true := by decide +kernel
 -- `c04_plain_frames`: a fault three frames deep, after siblings that return
-example : (Ctx.tup [.ok] (.dct [.ok, .tup []] (.lst (.frame .hole)) [.fault]) [.badPath]).PreOk exE := by
+example : (Ctx.tup [.ok] (.dct [.ok, .tup []] (.lst (.frame (.first .hole))) [.fault]) [.badPath]).PreOk exE := by
   simp [Ctx.PreOk, eval, evalSeq, frameG_id]
-example : eval exE ((Ctx.tup [.ok] (.dct [.ok, .tup []] (.lst (.frame .hole)) [.fault]) [.badPath]).plug .fault)
+example : eval exE ((Ctx.tup [.ok] (.dct [.ok, .tup []] (.lst (.frame (.first .hole))) [.fault]) [.badPath]).plug .fault)
     = .exc .injected := by decide +kernel
 -- without `PreOk`: an earlier sibling fails first, with its own exception
 example : eval exE ((Ctx.tup [.badPath] .hole []).plug .fault) = .exc (.internal "PathAccessError") := by
